@@ -376,8 +376,8 @@ func cmpIP(a, b net.IP) int {
 
 func TestZZVerifC07(t *testing.T) {
 	run := core.NewRun("C07", "exploration",
-		"PRNG-generated histories of catalog commands (register/deregister of nodes, typical/connect-proxy/connect-native/gateway services, node- and service-level checks, local and for two peers, rename by ID), config entries (service-defaults incl. destinations, gateways, resolvers, ...), transactions with node/service/check verbs, virtual-IP flags; after EVERY command independent walkers recompute from the base tables: orphans (service/check without node, service check without instance, coordinate without node), usage counters, kind-service-names, mesh-topology refs, virtual-IP injectivity / free-pool disjointness / advertised==assigned. non-trivial = history that reached >=3 of the hard situations (last instance of a service removed, proxy removed after its service, two proxies sharing an upstream, node removed with services+checks, node rename by ID); distinct by command log hash")
-	run.Assume("gateway-services recomputation is not part of this monitor (see DESIGN.md); peer-imported proxies' topology refs are treated as allowed-but-not-required (upstream code marks this path TODO(peering))")
+		"PRNG-generated histories of catalog commands (register/deregister of nodes, typical/connect-proxy/connect-native/gateway services, node- and service-level checks, local and for two peers, rename by ID), config entries (service-defaults incl. destinations, gateways, resolvers, ...), transactions with node/service/check verbs, virtual-IP flags; after EVERY command independent walkers recompute from the base tables: orphans (service/check without node, service check without instance, coordinate without node), usage counters, kind-service-names, mesh-topology refs, gateway-services links (explicit listings with their own fields, wildcard rows, wildcard expansion by connect mode / destinations, nothing else), virtual-IP injectivity / free-pool disjointness / advertised==assigned. non-trivial = history that reached >=3 of the hard situations (last instance of a service removed, proxy removed after its service, two proxies sharing an upstream, node removed with services+checks, node rename by ID); distinct by command log hash")
+	run.Assume("peer-imported proxies' topology refs are treated as allowed-but-not-required (upstream code marks this path TODO(peering))", "gateway-services: wildcard mappings whose presence depends on registration order (a name that has a sidecar proxy but no instance of its own) are allowed-but-not-required; of ServiceKind only destination vs non-destination is judged (consul's own tests pin both \"\" and \"service\" for a registered service)")
 	rng := core.NewRand(core.Seed())
 	nh := core.N(150, 3000)
 	ln := core.N(70, 110)
